@@ -147,4 +147,256 @@ theorem joinHostPort_wellFormed (h q : Str)
   | true => simpa using splitHostPort_bracketed h q h2 h3 q1 q2 q3
   | false => simpa using splitHostPort_plain h q hc h2 h3 q1 q2 q3
 
+/-! ## character classes of the formatters -/
+
+/-- free of `:`, `[`, `]` -/
+def Plain (s : Str) : Prop := hasChar ':' s = false ∧ hasChar '[' s = false ∧ hasChar ']' s = false
+/-- free of `[`, `]` -/
+def NoBr (s : Str) : Prop := hasChar '[' s = false ∧ hasChar ']' s = false
+
+theorem Plain.noBr {s : Str} (h : Plain s) : NoBr s := ⟨h.2.1, h.2.2⟩
+
+theorem plain_of_forall {s : Str} (h : ∀ c ∈ s, c ≠ ':' ∧ c ≠ '[' ∧ c ≠ ']') : Plain s :=
+  ⟨(hasChar_false_iff _ _).2 fun c hc => (h c hc).1, (hasChar_false_iff _ _).2 fun c hc => (h c hc).2.1,
+   (hasChar_false_iff _ _).2 fun c hc => (h c hc).2.2⟩
+
+theorem noBr_of_forall {s : Str} (h : ∀ c ∈ s, c ≠ '[' ∧ c ≠ ']') : NoBr s :=
+  ⟨(hasChar_false_iff _ _).2 fun c hc => (h c hc).1, (hasChar_false_iff _ _).2 fun c hc => (h c hc).2⟩
+
+theorem noBr_append {a b : Str} (ha : NoBr a) (hb : NoBr b) : NoBr (a ++ b) := by
+  simp [NoBr, ha.1, ha.2, hb.1, hb.2]
+
+theorem itoa_digits (n : Nat) : ∀ c ∈ itoa n, c.isDigit = true := fun _ hc =>
+  Nat.isDigit_of_mem_toDigits (by decide) (by decide) hc
+
+theorem itoa_plain (n : Nat) : Plain (itoa n) := by
+  apply plain_of_forall
+  intro c hc
+  have := itoa_digits n c hc
+  refine ⟨?_, ?_, ?_⟩ <;> (rintro rfl; simp [Char.isDigit] at this)
+
+theorem mem_intercal (sep : Str) : ∀ (l : List Str) (c : Char), c ∈ intercal sep l → c ∈ sep ∨ ∃ x ∈ l, c ∈ x
+  | [], c, h => by simp [intercal] at h
+  | [a], c, h => by simp only [intercal] at h; exact Or.inr ⟨a, by simp, h⟩
+  | a :: b :: r, c, h => by
+    simp only [intercal, List.mem_append] at h
+    rcases h with (h | h) | h
+    · exact Or.inr ⟨a, by simp, h⟩
+    · exact Or.inl h
+    · rcases mem_intercal sep (b :: r) c h with h | ⟨x, hx, hc⟩
+      · exact Or.inl h
+      · exact Or.inr ⟨x, List.mem_cons_of_mem _ hx, hc⟩
+
+/-- chars of a dotted quad: digits and `.` -/
+theorem fmtV4_plain (a : Nat) : Plain (fmtV4 a) := by
+  apply plain_of_forall
+  intro c hc
+  rcases mem_intercal _ _ c hc with h | ⟨x, hx, h⟩
+  · simp at h; subst h; decide
+  · have : ∃ n, x = itoa n := by
+      simp only [List.mem_cons, List.not_mem_nil, or_false] at hx
+      rcases hx with rfl | rfl | rfl | rfl <;> exact ⟨_, rfl⟩
+    obtain ⟨n, rfl⟩ := this
+    have p := itoa_plain n
+    exact ⟨(hasChar_false_iff _ _).1 p.1 c h, (hasChar_false_iff _ _).1 p.2.1 c h, (hasChar_false_iff _ _).1 p.2.2 c h⟩
+
+theorem digitChar_noBr (n : Nat) : Nat.digitChar n ≠ '[' ∧ Nat.digitChar n ≠ ']' :=
+  ⟨Nat.digitChar_ne '[' (by decide), Nat.digitChar_ne ']' (by decide)⟩
+
+theorem hex16_noBr (x : Nat) : NoBr (hex16 x) := by
+  apply noBr_of_forall
+  intro c hc
+  simp only [hex16, List.mem_append, List.mem_singleton] at hc
+  rcases hc with ((h | h) | h) | h
+  · split at h
+    · simp at h; subst h; exact digitChar_noBr _
+    · simp at h
+  · split at h
+    · simp at h; subst h; exact digitChar_noBr _
+    · simp at h
+  · split at h
+    · simp at h; subst h; exact digitChar_noBr _
+    · simp at h
+  · subst h; exact digitChar_noBr _
+
+theorem intercal_noBr (sep : Str) (hs : NoBr sep) : ∀ l : List Str, (∀ x ∈ l, NoBr x) → NoBr (intercal sep l)
+  | [], _ => by simp [intercal, NoBr]
+  | [a], h => by simpa [intercal] using h a (by simp)
+  | a :: b :: r, h => by
+    have ih := intercal_noBr sep hs (b :: r) (fun x hx => h x (by simp [hx]))
+    have ha := h a (by simp)
+    simpa [intercal] using noBr_append ha (noBr_append hs ih)
+
+theorem fmtV6_noBr (a : Nat) : NoBr (fmtV6 a) := by
+  have colon : NoBr [':'] := by simp [NoBr]
+  have hx : ∀ l : List Nat, ∀ x ∈ l.map hex16, NoBr x := by
+    intro l x hx
+    simp only [List.mem_map] at hx
+    obtain ⟨y, _, rfl⟩ := hx
+    exact hex16_noBr y
+  unfold fmtV6
+  simp only []
+  split
+  · exact intercal_noBr _ colon _ (hx _)
+  · exact noBr_append (noBr_append (intercal_noBr _ colon _ (hx _)) (by simp [NoBr])) (intercal_noBr _ colon _ (hx _))
+
+/-- the address part of `AddrPort.String()` -/
+def fmtAddr (d : Dst) : Str :=
+  if d.is4 then fmtV4 d.addr
+  else if is4In6 d.addr then "::ffff:".toList ++ fmtV4 (d.addr % 2 ^ 32)
+  else fmtV6 d.addr
+
+theorem fmtAddrPort_wellFormed (d : Dst) :
+    splitHostPort (fmtAddrPort d) = some (fmtAddr d, itoa d.port) := by
+  have pp := itoa_plain d.port
+  unfold fmtAddrPort fmtAddr
+  split
+  · have p4 := fmtV4_plain d.addr
+    exact splitHostPort_plain _ _ p4.1 p4.2.1 p4.2.2 pp.1 pp.2.1 pp.2.2
+  · split
+    · have p4 := (fmtV4_plain (d.addr % 2 ^ 32)).noBr
+      have nb : NoBr ("::ffff:".toList ++ fmtV4 (d.addr % 2 ^ 32)) := noBr_append ⟨by decide, by decide⟩ p4
+      have := splitHostPort_bracketed _ (itoa d.port) nb.1 nb.2 pp.1 pp.2.1 pp.2.2
+      simpa using this
+    · have nb := fmtV6_noBr d.addr
+      have := splitHostPort_bracketed _ (itoa d.port) nb.1 nb.2 pp.1 pp.2.1 pp.2.2
+      simpa using this
+
+/-! ## `nameTarget` -/
+
+theorem nameTarget_wellFormed (d : Str) (p : Nat) (hb : NoBr (stripBrackets d)) :
+    splitHostPort (nameTarget d p).1 = some (stripBrackets d, itoa p) ∨
+    ((nameTarget d p).1 = stripBrackets d ∧ (splitHostPort (stripBrackets d)).isSome = true) := by
+  have pp := itoa_plain p
+  have j := joinHostPort_wellFormed (stripBrackets d) (itoa p) hb.1 hb.2 pp.1 pp.2.1 pp.2.2
+  unfold nameTarget
+  simp only []
+  split
+  · exact Or.inl j
+  · split
+    · rename_i h; exact Or.inr ⟨rfl, h⟩
+    · exact Or.inl j
+
+/-! ## knowledge -/
+
+theorem hasKnowledge_true_iff (w : World) (k : Str) :
+    (hasKnowledge w k).2 = true ↔ k ≠ [] ∧ ∃ e, w.know.get k = some e ∧ w.now < e := by
+  unfold hasKnowledge
+  split
+  · rename_i h; simp [h]
+  · rename_i h
+    cases hg : w.know.get k with
+    | none => simp
+    | some e =>
+      simp only []
+      split
+      · rename_i he; simp [h]; omega
+      · rename_i he; simp [h]; omega
+
+theorem hasKnowledge_realSet (w : World) (k : Str) : (hasKnowledge w k).1.realSet = w.realSet := by
+  unfold hasKnowledge
+  split
+  · rfl
+  · split
+    · rfl
+    · split <;> rfl
+
+theorem lookupReal_real (w : World) (d : Str) : (lookupReal w d).2.2 = w.realSet.contains d := by
+  unfold lookupReal
+  split
+  · rename_i h; simp only [h]
+  · rename_i h
+    have h' : w.realSet.contains d = false := by simpa using h
+    split
+    · split <;> simp only [h']
+    · simp only [h']
+
+theorem lookupReal_known_of_real (w : World) (d : Str) (h : (lookupReal w d).2.2 = true) :
+    (lookupReal w d).2.1 = true := by
+  unfold lookupReal at *
+  split
+  · rfl
+  · rename_i hc
+    rw [if_neg hc] at h
+    split at h <;> (try split at h) <;> simp at h
+
+/-- `decideMode` in domain mode, for a user outbound and a non-empty name, as one expression. -/
+theorem decideMode_domain (w : World) (ob : Nat) (dst : Dst) (d : Str)
+    (hm : w.mode = .domain) (hr : isReserved ob = false) (hd : d ≠ []) :
+    decideMode w ob dst d =
+      if isIPLike d then (w, false, false, none)
+      else
+        let r := hasKnowledge w (cacheKey d dst.is4)
+        if r.2 then (r.1, true, true, none)
+        else
+          let l := lookupReal r.1 d
+          if l.2.1 then (if l.2.2 then (l.1, true, true, none) else (l.1, false, false, none))
+          else (l.1, false, false, some d) := by
+  have hc : (!isReserved ob && decide (d ≠ [])) = true := by simp [hr, hd]
+  rw [decideMode, if_pos hc]
+  simp only [hm]
+
+/-- domain mode: both the "use the name" flag and the re-route flag equal "genuine". -/
+theorem decideMode_domain_flags (w : World) (ob : Nat) (dst : Dst) (d : Str)
+    (hm : w.mode = .domain) (hr : isReserved ob = false) (hd : d ≠ []) :
+    (decideMode w ob dst d).2.1 =
+        (!isIPLike d && ((hasKnowledge w (cacheKey d dst.is4)).2 || w.realSet.contains d)) ∧
+    (decideMode w ob dst d).2.2.1 =
+        (!isIPLike d && ((hasKnowledge w (cacheKey d dst.is4)).2 || w.realSet.contains d)) := by
+  rw [decideMode_domain w ob dst d hm hr hd]
+  simp only []
+  cases hi : isIPLike d with
+  | true => simp
+  | false =>
+    cases hk : (hasKnowledge w (cacheKey d dst.is4)).2 with
+    | true => simp
+    | false =>
+      have e := lookupReal_real (hasKnowledge w (cacheKey d dst.is4)).1 d
+      rw [hasKnowledge_realSet] at e
+      cases hc : w.realSet.contains d with
+      | true =>
+        rw [hc] at e
+        have k := lookupReal_known_of_real _ _ e
+        simp [e, k]
+      | false =>
+        rw [hc] at e
+        cases hkn : (lookupReal (hasKnowledge w (cacheKey d dst.is4)).1 d).2.1 <;> simp [e]
+
+theorem decideMode_plus (w : World) (ob : Nat) (dst : Dst) (d : Str)
+    (hm : w.mode = .domainPlus) (hr : isReserved ob = false) (hd : d ≠ []) :
+    decideMode w ob dst d = (w, true, false, none) := by
+  have hc : (!isReserved ob && decide (d ≠ [])) = true := by simp [hr, hd]
+  rw [decideMode, if_pos hc]
+  simp only [hm]
+
+theorem decideMode_cao (w : World) (ob : Nat) (dst : Dst) (d : Str)
+    (hm : w.mode = .domainCao) (hr : isReserved ob = false) (hd : d ≠ []) :
+    decideMode w ob dst d = (w, true, true, none) := by
+  have hc : (!isReserved ob && decide (d ≠ [])) = true := by simp [hr, hd]
+  rw [decideMode, if_pos hc]
+  simp only [hm]
+
+theorem decideMode_ip (w : World) (ob : Nat) (dst : Dst) (d : Str)
+    (h : w.mode = .ip ∨ d = [] ∨ isReserved ob = true) :
+    decideMode w ob dst d = (w, false, false, none) := by
+  unfold decideMode
+  split
+  · rename_i hc
+    simp only [Bool.and_eq_true, Bool.not_eq_true', decide_eq_true_eq] at hc
+    rcases h with h | h | h
+    · simp only [h]
+    · exact absurd h hc.2
+    · rw [hc.1] at h; cases h
+  · rfl
+
+theorem chooseDialTarget_eq (w : World) (ob : Nat) (dst : Dst) (d : Str) :
+    chooseDialTarget w ob dst d =
+      let r := decideMode w ob dst d
+      if r.2.1 then
+        (r.1, { target := (nameTarget d dst.port).1, reroute := r.2.2.1, dialIp := (nameTarget d dst.port).2, probeReq := r.2.2.2 })
+      else (r.1, { target := fmtAddrPort dst, reroute := r.2.2.1, dialIp := true, probeReq := r.2.2.2 }) := by
+  unfold chooseDialTarget
+  rcases decideMode w ob dst d with ⟨w1, u, rr, pr⟩
+  simp only []
+
 end DaeVerif.C18
